@@ -43,6 +43,7 @@ package json
 //@   assigns heap[tabular.propertyImpl.properties], new(tabular.valueProperty), jtab(jt).ErrorContainer.errors_, elemscap(jtab(jt).ErrorContainer.errors_), ghost cbErrN, ghost cbErrLog, ghost cbCallN, ghost cbCallSelf, ghost cbCallOwner, ghost stage, ghost fires, ghost stageR, ghost firesR, ghost stageT, ghost stageC, ghost Wn, ghost Wchunk, ghost Wfailed, ghost jstate, ghost jobjs, new(bool), new(string), heap[[]byte]
 //@   requires [writer-ok] !Wfailed
 //@   requires [nothing-written-yet] jstate == 0
+//@   ensures [exactly-one-render-pass] stageT[jtab(jt)] == old(stageT)[jtab(jt)] + 2 @C13
 //@   ensures [error-list-grows-only-by-callback-errors] cbErrN >= old(cbErrN) && len(jtab(jt).ErrorContainer.errors_) == old(len(jtab(jt).ErrorContainer.errors_)) + (cbErrN - old(cbErrN)) @C14,C11
 //@   ensures [table-still-wellformed] tbl(jt.Table) @C09,C14
 //@   ensures [no-columns-refused] jtab(jt).nColumns < 1 ==> result != nil && Wn == old(Wn) @C07
